@@ -113,7 +113,11 @@ def q_grammar(side: str) -> Grammar:
         ]
     agg = [A("count", 0, "COUNT(b)"), A("sum", 1, "SUM(b)"), A("min", 1, "MIN(b)"), A("max", 1, "MAX(b)"), A("avg", 1, "AVG(b)"),
            A("count_distinct", 1, "COUNT(DISTINCT b)"), A("sum_expr", 1, "SUM({i})"), A("total", 1, "COUNT(*)"),
-           A("group_concat", 1, "COUNT(s)")]
+           A("group_concat", 1, "COUNT(s)"),
+           # arithmetic over aggregates (integer vs. fractional division, modulo, mixed aggregates)
+           A("agg.div_const", 1, "SUM(b) / 2"), A("agg.div_count", 1, "SUM(b) / COUNT(*)"), A("agg.avg_div", 1, "AVG(b) / 2"), A("agg.count_div", 1, "COUNT(b) / 2"),
+           A("agg.mod", 1, "SUM(b) % 2"), A("agg.range", 1, "MAX(b) - MIN(b)"), A("agg.div_paren", 1, "(SUM(b) + 1) / 2"), A("agg.const_div", 1, "3 / COUNT(b)"),
+           A("agg.neg_div", 1, "-SUM(b) / 2")]
     jk = [A("inner", 0, "JOIN"), A("left", 1, "LEFT JOIN"), A("right", 1, "RIGHT JOIN"), A("full", 1, "FULL JOIN")]
     # join conditions: the plain equi-join, plus conjuncts over one side only (NULL-sensitive when a rewrite moves them),
     # a residual inequality, a disjunction and a pure inequality
